@@ -113,7 +113,7 @@ HStep(h, s, s2, t, o, r, clk, guard, OIdxOf, tgt, busy) ==
       \* ---- everything that touched the same objects before
       objs ==
         CASE o.k \in {"lock", "try_lock"} -> h.xm[m]
-          [] o.k \in {"unlock", "unlock_if", "ginc", "gget"} ->
+          [] o.k \in {"unlock", "unlock_if", "punlock", "ginc", "gget"} ->
                (IF g.k = "m" THEN h.xm[g.o + 1] ELSE IF g.k \in {"r", "w"} THEN h.xr[g.o + 1] ELSE {})
           [] o.k = "cv_wait" -> h.xm[o.v + 1] \cup h.xv[m]
           [] o.k \in {"notify_one", "notify_all"} -> h.xv[m]
@@ -134,7 +134,7 @@ HStep(h, s, s2, t, o, r, clk, guard, OIdxOf, tgt, busy) ==
       h1 == [h EXCEPT !.ev = Append(@, rec), !.last = SetAt(@, t + 1, n)]
       AddX(hh) ==
         CASE o.k \in {"lock", "try_lock"} -> [hh EXCEPT !.xm[m] = @ \cup {n}]
-          [] o.k \in {"unlock", "unlock_if", "ginc", "gget"} ->
+          [] o.k \in {"unlock", "unlock_if", "punlock", "ginc", "gget"} ->
                (IF g.k = "m" THEN [hh EXCEPT !.xm[g.o + 1] = @ \cup {n}]
                 ELSE IF g.k \in {"r", "w"} THEN [hh EXCEPT !.xr[g.o + 1] = @ \cup {n}] ELSE hh)
           [] o.k = "cv_wait" -> [hh EXCEPT !.xm[o.v + 1] = @ \cup {n}, !.xv[m] = @ \cup {n}]
@@ -153,7 +153,7 @@ HStep(h, s, s2, t, o, r, clk, guard, OIdxOf, tgt, busy) ==
       Eff(hh) ==
         CASE o.k = "lock" \/ (o.k = "try_lock" /\ r # 1) -> [hh EXCEPT !.mb[m] = acqM(m).rest]
           [] o.k = "cv_wait" -> [hh EXCEPT !.mb[o.v + 1] = Take(hh.mb[o.v + 1], 1).rest]
-          [] o.k \in {"unlock", "unlock_if"} ->
+          [] o.k \in {"unlock", "unlock_if", "punlock"} ->
                (IF g.k = "m" THEN [hh EXCEPT !.mb[g.o + 1] = Append(@, [n |-> 1, ev |-> n])]
                 ELSE IF g.k = "r" THEN [hh EXCEPT !.rb[g.o + 1] = Append(@, [n |-> 1, ev |-> n])]
                 ELSE IF g.k = "w" THEN [hh EXCEPT !.rb[g.o + 1] = Append(@, [n |-> MaxReads, ev |-> n])] ELSE hh)
